@@ -91,6 +91,11 @@ def run(c):
     def confirm(idx, t):
         return confirm_by_tlc(c, drv, cases[idx], "Trace_C02", t[2], context=cases[max(0, idx - 2):idx])
     c.triage(mism, classify, confirm)
+    def _c(e):
+        e["bytes"] = e["bytes"][:-1] if e["bytes"] else [0]
+        e["d"]["mand"][0]["v"] = [(e["d"]["mand"][0]["v"][0] + 1) % 256]
+        return e
+    binding_selftest(c, "Trace_C02", events, lambda x: '"decok":true' in x, _c, "one decoded mandatory octet changed")
     c.cov["rule"] = "cases = build/encode/decode of one message value on the real code; distinct non-trivial = distinct (message, slot values) tuples; every case has all mandatory slots and usually >= 1 optional element"
     c.cov["messages"] = len(bym)
     for i in (0, len(events) // 2, len(events) - 1):
